@@ -230,12 +230,14 @@ where
     // We accumulate all validity checks into single branches at the end in order to
     // keep the loop itself branchless.
     let mut laps_or_zeros = 0usize;
+    let mut num_provided = 0usize;
     let mut accum = Probability::zero();
 
     for probability in probabilities {
         let old_accum = accum;
         accum = accum.wrapping_add(probability.borrow());
         laps_or_zeros += (accum <= old_accum) as usize;
+        num_provided += 1;
         let symbol = symbols.next().ok_or(())?;
         operation(symbol, old_accum, *probability.borrow())?;
     }
@@ -243,13 +245,23 @@ where
     let total = wrapping_pow2::<Probability>(PRECISION);
 
     if infer_last_probability {
-        if accum >= total || laps_or_zeros != 0 {
+        // If `PRECISION == Probability::BITS` then `total` wrapped around to zero and
+        // `laps_or_zeros == 0` already implies that the provided probabilities sum up to
+        // less than one. We need at least one provided probability because we don't support
+        // degenerate distributions that put all probability mass on a single symbol.
+        let exceeds_total = PRECISION != Probability::BITS && accum >= total;
+        if exceeds_total || laps_or_zeros != 0 || num_provided == 0 {
             return Err(());
         }
         let symbol = symbols.next().ok_or(())?;
         let probability = total.wrapping_sub(&accum);
         operation(symbol, accum, probability)?;
-    } else if accum != total || laps_or_zeros != (PRECISION == Probability::BITS) as usize {
+    } else if accum != total
+        || laps_or_zeros != (PRECISION == Probability::BITS) as usize
+        || num_provided < 2
+    {
+        // (A single provided probability would have to carry all probability mass, and, for
+        // `PRECISION == Probability::BITS`, a single zero would be mistaken for a full lap.)
         return Err(());
     }
 
